@@ -339,13 +339,13 @@ class CylindricalSurfaceHistogram(TransformedHistogramMixin, HistogramND):
         The radius of the surface. Useful for plotting
     """
 
-    default_axis_names = ["rho", "phi", "z"]
+    default_axis_names = ["phi", "z"]
     default_init_values = {"radius": 1}
     source_ndim = 3
 
     @classmethod
     def _transform_correct_dimension(cls, value):
-        result = np.ndarray((*value.shape[-1], 2))
+        result = np.ndarray((*value.shape[:-1], 2))
         x, y, z = value.T
         result[..., 0] = np.arctan2(y, x) % (2 * np.pi)  # phi
         result[..., 1] = z
@@ -706,7 +706,10 @@ def cylindrical_surface(
         )
 
     transformed_array, array_mask = extract_transformed_data(
-        data, transformed=transformed, klass=CylindricalHistogram, dropna=dropna
+        data,
+        transformed=transformed,
+        klass=CylindricalSurfaceHistogram,
+        dropna=dropna,
     )
 
     if transformed_array is not None:
@@ -726,7 +729,7 @@ def cylindrical_surface(
         **kwargs,
     )
     frequencies, errors2, missed = histogram_nd.calculate_nd_frequencies(
-        data,
+        transformed_array,
         binnings=bin_schemas,
         weights=extract_weights(weights, array_mask=array_mask),
     )
